@@ -16,6 +16,20 @@ CHECKS = {
         note='Trusted: purity of seeded batch generation (C02) for the reference rows; simulator-invocation counter '
              'with max_parallel_batches=1 as the count of consumed batches. Bounded to toy models and small sizes.',
         design_ref='4 C01'),
+    'C04': dict(
+        level='model_checking',
+        technique='stateless DFS over every completion order / is_ready answer sequence of a scripted client driving '
+                  'the real Rejection and SMC samplers (visited-state pruning, unpruned and deviation-bounded trees as '
+                  'cross-check), leaf oracle = bitwise equality with the sequential run, per-step monitors',
+        text='The client is replaced by an environment whose every task-completion order and readiness answer is a '
+             'choice; the complete schedule tree of each driver (n_sim / quantile / threshold Rejection, 2-3 round SMC '
+             'with threshold and quantile lists) is executed on the real sampler for max_parallel_batches 1..4, with '
+             'in-process and pickled task isolation. Every leaf must equal the sequential reference bit for bit; '
+             'monitors check strict index order, the outstanding bound, no use of cancelled tasks and an empty client.',
+        note='Trusted: the environment model (tasks finish one at a time at client API calls, truthful is_ready, no task '
+             'failure); soundness of visited-state merging (canonical sampler+client state), cross-checked against '
+             'unpruned trees. Real worker processes only in the thorough free-running cross-check.',
+        design_ref='4 C04'),
     'C15': dict(
         level='model_checking',
         technique='explicit-state BFS to closure over the real get_sub_seed cache states (all index requests in every '
